@@ -9,7 +9,9 @@ CONSTANTS
   MaxRandSize = 0
   MaxRandBig = 0
   TocBytes = {0, 99}
-  B1s = {3}
+  B1s = {3, 13}
+  Empties = TRUE
+  Bufs = {"fresh"}
   ChCfgs <- ChTwo
   TagCfgs <- TagTwo
   Rates <- RatesOne
